@@ -330,7 +330,7 @@ theorem inherited_font_witness :
       st2.out = [[0xA4]] := by
   refine ⟨by decide, ?_⟩
   exact inherited_font_after_history id exRes4 (initial exRes4 (some exPageRd)) (initial exRes4 (some exPageRd)) [] rfl
-    [70, 49] (.int 12) (by decide) ⟨none, Reader.kWinAnsiEncoding⟩ (by rfl) exPageRd exFormDict [88, 49]
+    [70, 49] (.int 12) (by decide) ⟨none, Reader.kWinAnsiEncoding, []⟩ (by rfl) exPageRd exFormDict [88, 49]
     [40, 0xA4, 41, 84, 106] [0xA4] rfl (by rfl) (by decide) exShow_parse [0xA4] (by decide +kernel)
 
 /-- the old lookup by name agrees with the selection as long as the current name is still
@@ -418,24 +418,25 @@ theorem extract_never_unsupported (nfc : List Nat → List Nat) (res : FRes) (pa
 
 /-- A simple-font dictionary (`/Subtype /TrueType` or `/Type1`) whose `/Encoding` and `/Widths`
 are acceptable and whose `/ToUnicode` is a reference to a stream that decodes to `prog`
-registers as the font `⟨ToUnicode = parseCMapData prog, Encoding = enc⟩`
-(`NewTrueTypeFont` / `NewType1Font` + `ParseToUnicodeCMap`). -/
+registers as the font `⟨ToUnicode = parseCMapData prog, Encoding = enc, Differences = ds⟩`
+(`NewTrueTypeFont` / `NewType1Font` + `ParseToUnicodeCMap`; with the CMap present neither
+`enc` nor `ds` is consulted, `C07.differences_tounicode_precedence`). -/
 theorem parseFont_simple_tounicode (res : Reader.Res) (fd : Dict) (st std : Str) (diffs : Bool)
     (hst : dget fd Reader.kSubtype = some (.name st))
     (hkind : (st = Reader.kType1 ∧ std = Reader.kStandardEncoding ∧ diffs = true) ∨
              (st = Reader.kTrueType ∧ std = Reader.kWinAnsiEncoding ∧ diffs = false))
-    (enc : Str) (henc : Reader.simpleEncoding res fd std diffs = some enc)
+    (enc : Str) (ds : Diffs) (henc : Reader.simpleEncoding res fd std diffs = some (enc, ds))
     (hw : Reader.widthsOk res fd = true)
     (n g : Int) (htu : dget fd Reader.kToUnicode = some (.ref n g)) (hn : 0 ≤ n)
     (prog : Str) (hres : res n.toNat = .ok (.stream (some prog))) :
-    parseFont res (.dict fd) = some ⟨some (CMap.parseCMapData prog), enc⟩ := by
+    parseFont res (.dict fd) = some ⟨some (CMap.parseCMapData prog), enc, ds⟩ := by
   have htu' : Reader.toUnicodeOf res fd = some (CMap.parseCMapData prog) := by
     unfold Reader.toUnicodeOf
     simp only [htu]
     unfold Reader.resolve
     have : ¬ n < 0 := by omega
     simp only [this, if_false, hres]
-  have hR : Reader.parseFont res (.dict fd) = some ⟨some (CMap.parseCMapData prog), enc⟩ := by
+  have hR : Reader.parseFont res (.dict fd) = some ⟨some (CMap.parseCMapData prog), enc, ds⟩ := by
     unfold Reader.parseFont
     simp only [Reader.resolve, hst]
     rcases hkind with ⟨h1, h2, h3⟩ | ⟨h1, h2, h3⟩
@@ -459,10 +460,56 @@ def exRes2 : Reader.Res := fun n => if n = 7 then .ok (.stream (some [60, 62])) 
 /-- the hypotheses are satisfiable: a TrueType dictionary with `/Encoding /Mac` and
 `/ToUnicode 7 0 R`, object 7 being a stream -/
 example :
-    Reader.simpleEncoding exRes2 exFd Reader.kWinAnsiEncoding false = some [77, 97, 99] ∧ Reader.widthsOk exRes2 exFd = true ∧
+    Reader.simpleEncoding exRes2 exFd Reader.kWinAnsiEncoding false = some ([77, 97, 99], []) ∧ Reader.widthsOk exRes2 exFd = true ∧
       (match exRes2 (7 : Int).toNat with | .ok (.stream (some d)) => d == [60, 62] | _ => false) = true ∧
       ((parseFont exRes2 (.dict exFd)).map (·.encoding)) = some [77, 97, 99] := by
   decide
+
+/-- **simple_font_differences** (`parseEncoding` of `NewType1Font` and of `NewTrueTypeFont`
+after b3a0e07): an `/Encoding` dictionary with a `/Differences` array of runs leaves the base
+encoding's name in `Font.Encoding` and in `Font.Differences` exactly what the array specifies
+for every byte (`Differences.specRune`: the glyph of the last run naming the byte, as far as
+the glyph list knows its name) - for Type1 and TrueType alike, for every list of runs. -/
+theorem simple_font_differences (res : Reader.Res) (fd ed : Dict) (std : Str) (strict : Bool)
+    (rs : List Differences.Run)
+    (he : dget fd Reader.kEncoding = some (.dict ed))
+    (hd : dget ed Reader.kDifferences = some (.arr (Differences.renderRuns rs))) :
+    ∃ ds, Reader.simpleEncoding res fd std strict = some (Reader.baseEncoding ed std, ds) ∧
+      ∀ b, b ≤ 255 → diffLookup ds b = Differences.specRune rs b := by
+  exact Differences.simpleEncoding_differences res fd ed std strict rs he hd
+
+/-- … and the font that is registered for such a dictionary without `/ToUnicode` -/
+theorem parseFont_simple_differences (res : Reader.Res) (fd ed : Dict) (st std : Str)
+    (hst : dget fd Reader.kSubtype = some (.name st))
+    (hkind : (st = Reader.kType1 ∧ std = Reader.kStandardEncoding) ∨ (st = Reader.kTrueType ∧ std = Reader.kWinAnsiEncoding))
+    (rs : List Differences.Run)
+    (he : dget fd Reader.kEncoding = some (.dict ed))
+    (hd : dget ed Reader.kDifferences = some (.arr (Differences.renderRuns rs)))
+    (hw : Reader.widthsOk res fd = true) (htu : dget fd Reader.kToUnicode = none) :
+    ∃ ds, parseFont res (.dict fd) = some ⟨none, Reader.baseEncoding ed std, ds⟩ ∧
+      ∀ b, b ≤ 255 → diffLookup ds b = Differences.specRune rs b := by
+  have h0 : isType0 res (.dict fd) = false := by
+    unfold isType0
+    simp only [Reader.resolve, hst]
+    rcases hkind with ⟨h1, _⟩ | ⟨h1, _⟩ <;> subst h1 <;> decide
+  obtain ⟨ds, hR, hl⟩ := Differences.parseFont_differences res fd ed st std hst hkind rs he hd hw htu
+  refine ⟨ds, ?_, hl⟩
+  unfold parseFont
+  rw [hR, h0]
+  rfl
+
+/-- the witness of finding C01/font-text-differences as a font dictionary -/
+def exDiffFd : Dict :=
+  [(Reader.kType, .name Reader.kFont), (Reader.kSubtype, .name Reader.kType1),
+   (Reader.kEncoding, .dict [(Reader.kBaseEncoding, .name Reader.kWinAnsiEncoding),
+      (Reader.kDifferences, .arr (Differences.renderRuns C07.exDiffRuns))])]
+
+/-- the hypotheses are satisfiable: the witness dictionary registers with the two overrides -/
+example :
+    ((parseFont (fun _ => .error .err) (.dict exDiffFd)).map fun f => (f.toUnicode.isSome, f.encoding, f.differences)) =
+      some (false, Reader.kWinAnsiEncoding, [(66, some 0xE9), (65, some 0x20AC)]) ∧
+    Reader.widthsOk (fun _ => .error .err) exDiffFd = true ∧ (dget exDiffFd Reader.kToUnicode).isNone = true := by
+  decide +kernel
 
 /-! ## 6. end to end: font dictionary + ToUnicode program + content-stream history
 
@@ -472,7 +519,8 @@ The property's statement over the model of the public path
 to a font whose `/ToUnicode` stream holds ANY program of the independent writer (any policy,
 form, width 1–4, code→text map) shows, after ANY content-stream history, a string of
 specified codes in that font — the fragment text is the NFC of the specified texts, whatever
-the font's `/Encoding` says and whether or not the code string looks like a byte-order mark. -/
+the font's `/Encoding` says (name, base encoding or `/Differences`) and whether or not the code
+string looks like a byte-order mark. -/
 
 theorem registered_alias (res : Reader.Res) (fontsD : Dict) (n : Str) (o : Obj)
     (hn : n.head? ≠ some 47) (hno : dget fontsD (47 :: n) = none) (hb : dget fontsD n = some o) :
@@ -481,13 +529,13 @@ theorem registered_alias (res : Reader.Res) (fontsD : Dict) (n : Str) (o : Obj)
   simp only [hn, if_false, hno, hb, Option.bind_some]
 
 theorem page_tounicode_end_to_end (nfc : List Nat → List Nat) (res : FRes) (pageRd fontsD : Dict)
-    (n : Str) (o : Obj) (enc : Str)
+    (n : Str) (o : Obj) (enc : Str) (ds : Diffs)
     (p : CMap.Policy) (f : CMap.Form) (w : Nat) (hw1 : 1 ≤ w) (hw4 : w ≤ 4) (runs : List CMap.Run)
     (hm : CMapCompose.MapOK w runs) (hoff : f = .bfchar ∨ f = .array ∨ ∀ r ∈ runs, CMap.RunOffsetOK r)
     -- the page's `/Font` dictionary binds `n` to a font dictionary with that ToUnicode program
     (hfonts : Reader.fontsOf (toRes res) (some pageRd) = some fontsD)
     (hn : n.head? ≠ some 47) (hno : dget fontsD (47 :: n) = none) (hb : dget fontsD n = some o)
-    (hfont : parseFont (toRes res) o = some ⟨some (CMap.parseCMapData (CMap.renderMap p f w runs)), enc⟩)
+    (hfont : parseFont (toRes res) o = some ⟨some (CMap.parseCMapData (CMap.renderMap p f w runs)), enc, ds⟩)
     -- any history, then `/n sz Tf <codes> Tj`
     (pre : List Pdf.CS.Operation) (st1 : St) (hpre : runPage nfc res (initial res (some pageRd)) pre = .ok st1)
     (sz : Obj) (hsz : Reader.isNum sz = true)
@@ -496,11 +544,57 @@ theorem page_tounicode_end_to_end (nfc : List Nat → List Nat) (res : FRes) (pa
         (pre ++ [opTfOf n sz, opTjOf ((sel.map (·.1)).flatMap (CMap.codeBytes w))]) = .ok st2 ∧
       st2.out = st1.out ++ [nfc (sel.flatMap (·.2))] := by
   have hbind : (initial res (some pageRd)).fonts (tfKey n) =
-      some ⟨some (CMap.parseCMapData (CMap.renderMap p f w runs)), enc⟩ := by
+      some ⟨some (CMap.parseCMapData (CMap.renderMap p f w runs)), enc, ds⟩ := by
     rw [page_initial_binding res pageRd fontsD hfonts, registered_alias _ _ n o hn hno hb, hfont]
   apply show_after_history_page nfc res _ st1 pre hpre n sz hsz _ _ hbind
-  rw [(C07.tounicode_precedence nfc _ enc enc _).2,
+  rw [(C07.tounicode_precedence nfc _ enc enc ds ds _).2,
     C07CMap.cmap_roundtrip p f w hw1 hw4 runs hm hoff sel hsel]
+
+/-- **page_differences_end_to_end**: the same public path for a simple font whose text comes
+from its `/Encoding` dictionary: a page whose resources bind a name to a Type1 or TrueType
+font dictionary without `/ToUnicode`, with `/Encoding << /BaseEncoding … /Differences [runs] >>`
+(ANY list of runs), shows, after ANY content-stream history, ANY byte string that does not
+start with a byte-order mark - the fragment text is, code by code, the character the
+differences specify where they name the code and the base encoding's character elsewhere, NFC
+last. (Before b3a0e07 the differences were dropped: `C07.differences_pinned_counterexample`.) -/
+theorem page_differences_end_to_end (nfc : List Nat → List Nat) (res : FRes) (pageRd fontsD : Dict)
+    (n : Str) (fd ed : Dict) (st std : Str)
+    (hst : dget fd Reader.kSubtype = some (.name st))
+    (hkind : (st = Reader.kType1 ∧ std = Reader.kStandardEncoding) ∨ (st = Reader.kTrueType ∧ std = Reader.kWinAnsiEncoding))
+    (rs : List Differences.Run)
+    (he : dget fd Reader.kEncoding = some (.dict ed))
+    (hd : dget ed Reader.kDifferences = some (.arr (Differences.renderRuns rs)))
+    (hw : Reader.widthsOk (toRes res) fd = true) (htu : dget fd Reader.kToUnicode = none)
+    (e : Encoding.Enc) (hbase : Reader.baseEncoding ed std ≠ [])
+    (hge : Encoding.getEncoding (Reader.baseEncoding ed std) = some e)
+    -- the page's `/Font` dictionary binds `n` to that font dictionary
+    (hfonts : Reader.fontsOf (toRes res) (some pageRd) = some fontsD)
+    (hn : n.head? ≠ some 47) (hno : dget fontsD (47 :: n) = none) (hb : dget fontsD n = some (.dict fd))
+    -- any history, then `/n sz Tf <data> Tj`
+    (pre : List Pdf.CS.Operation) (st1 : St) (hpre : runPage nfc res (initial res (some pageRd)) pre = .ok st1)
+    (sz : Obj) (hsz : Reader.isNum sz = true)
+    (data : Str) (hbytes : UTF16.AllBytes data) (hnb : C07.NoBOM data) :
+    ∃ st2, runPage nfc res (initial res (some pageRd)) (pre ++ [opTfOf n sz, opTjOf data]) = .ok st2 ∧
+      st2.out = st1.out ++ [nfc (data.filterMap fun b =>
+        match C07.specByte rs e.table b with
+        | some r => if r ≠ 0 then some (UTF16.toRune r) else none
+        | none => none)] := by
+  obtain ⟨ds, hfont, hl⟩ := parseFont_simple_differences (toRes res) fd ed st std hst hkind rs he hd hw htu
+  have hbind : (initial res (some pageRd)).fonts (tfKey n) = some ⟨none, Reader.baseEncoding ed std, ds⟩ := by
+    rw [page_initial_binding res pageRd fontsD hfonts, registered_alias _ _ n (.dict fd) hn hno hb, hfont]
+  apply show_after_history_page nfc res _ st1 pre hpre n sz hsz _ _ hbind
+  exact C07.differences_override nfc _ hbase e hge rs ds hl data hbytes hnb
+
+/-- the hypotheses are satisfiable: the page binds `F1` to the witness dictionary (written
+directly in the `/Font` dictionary) -/
+example :
+    (Reader.fontsOf (toRes (fun _ => .error .err)) (some [(Reader.kFont, .dict [([70, 49], .dict exDiffFd)])])).isSome = true ∧
+    Reader.baseEncoding [(Reader.kBaseEncoding, .name Reader.kWinAnsiEncoding)] Reader.kStandardEncoding = Reader.kWinAnsiEncoding ∧
+    (Encoding.getEncoding Reader.kWinAnsiEncoding).isSome = true ∧ UTF16.AllBytes [65, 66] ∧ C07.NoBOM [65, 66] := by
+  refine ⟨by decide, by decide, C07.getencoding_total _, ?_, ⟨fun r h => by simp at h, fun r h => by simp at h⟩⟩
+  intro b hb
+  simp only [List.mem_cons, List.mem_nil_iff, or_false] at hb
+  omega
 
 /-- a page whose `/Font` dictionary binds `F1` to object 3, a TrueType font with
 `/Encoding /MacRomanEncoding` and `/ToUnicode 7 0 R`; object 7 is a stream holding a rendered program -/
